@@ -37,8 +37,7 @@ func concMain(out, sum string, seed int64, nclients, rounds int) {
 	for _, ki := range kr.order {
 		keyByID[ki.id] = ki.tok
 	}
-	rec := newRecorder()
-	rec.max = 400000
+	rec := newLFRecorder()
 	ph := service.NewPacketHandler(natT, kr.list, rec, rec)
 	ph.SetTargetIPValidator(loopbackOK)
 	lc, err := listenUDP("udp4", "127.0.0.1:0")
@@ -51,35 +50,46 @@ func concMain(out, sum string, seed int64, nclients, rounds int) {
 	ms := func(t time.Time) int { return int(t.Sub(start) / time.Millisecond) }
 	laddr := lc.LocalAddr().(*net.UDPAddr)
 
-	// echo target: answers every datagram with "r:"+payload from the same socket
+	// echo targets: answer every datagram with "r:"+payload from the same socket; the second one sits on port 53
+	// (17 s rule, fast close: natconn.onWrite on the Handle goroutine against onRead on the association's goroutine)
 	tgt, err := listenUDP("udp4", "127.0.0.1:0")
 	if err != nil {
 		hx.Fatal("target: %v", err)
 	}
 	taddr := tgt.LocalAddr().(*net.UDPAddr)
+	var tgt53 *net.UDPConn
+	for i := 0; i < 200 && tgt53 == nil; i++ {
+		tgt53, _ = listenUDP("udp4", fmt.Sprintf("127.55.%d.%d:53", 1+rng.Intn(250), 1+rng.Intn(250)))
+	}
+	if tgt53 == nil {
+		hx.Fatal("could not bind a loopback port 53")
+	}
+	taddr53 := tgt53.LocalAddr().(*net.UDPAddr)
 	var mu sync.Mutex
 	var trecv, ssend, crecv, csend []cEvent
 	var nS atomic.Int64
 	var nD atomic.Int64
-	tdone := make(chan struct{})
-	go func() {
-		defer close(tdone)
+	tdone := make(chan struct{}, 2)
+	echo := func(t *net.UDPConn, tok int) {
+		defer func() { tdone <- struct{}{} }()
 		buf := make([]byte, 70000)
 		for {
-			n, from, err := tgt.ReadFromUDP(buf)
+			n, from, err := t.ReadFromUDP(buf)
 			if err != nil {
 				return
 			}
 			now := time.Now()
 			p := string(buf[:n])
-			sid := int(nS.Add(1))
 			mu.Lock()
-			trecv = append(trecv, cEvent{map[string]any{"payload": p, "port": from.Port, "sz": n}, now})
-			ssend = append(ssend, cEvent{map[string]any{"id": sid, "port": from.Port, "payload": "r:" + p, "sz": n + 2}, now})
+			sid := int(nS.Add(1))
+			trecv = append(trecv, cEvent{map[string]any{"payload": p, "port": from.Port, "sz": n, "tok": tok}, now})
+			ssend = append(ssend, cEvent{map[string]any{"id": sid, "port": from.Port, "payload": "r:" + p, "sz": n + 2, "tok": tok}, now})
 			mu.Unlock()
-			tgt.WriteToUDP([]byte("r:"+p), from)
+			t.WriteToUDP([]byte("r:"+p), from)
 		}
-	}()
+	}
+	go echo(tgt, tokA)
+	go echo(tgt53, tokB)
 
 	clients := make([]*net.UDPConn, nclients)
 	var wg sync.WaitGroup
@@ -124,6 +134,10 @@ func concMain(out, sum string, seed int64, nclients, rounds int) {
 		go func() {
 			defer wg.Done()
 			hdr := socksAddr(taddr)
+			dstTok := tokA
+			if ctok%4 == 0 {
+				hdr, dstTok = socksAddr(taddr53), tokB
+			}
 			for r := 0; r < rounds; r++ {
 				burst := 2 + lr.Intn(4)
 				for b := 0; b < burst; b++ {
@@ -143,10 +157,12 @@ func concMain(out, sum string, seed int64, nclients, rounds int) {
 					pkt, _ := shadowsocks.Pack(buf, pt, kk)
 					now := time.Now()
 					mu.Lock()
-					csend = append(csend, cEvent{map[string]any{"id": did, "c": ctok, "k": k, "sz": len(payload), "wire": len(pkt), "payload": payload}, now})
+					csend = append(csend, cEvent{map[string]any{"id": did, "c": ctok, "k": k, "sz": len(payload), "wire": len(pkt), "payload": payload, "dst": dstTok}, now})
 					mu.Unlock()
 					c.WriteToUDP(pkt, laddr)
-					time.Sleep(time.Duration(lr.Intn(15)) * time.Millisecond)
+					if dstTok == tokA || lr.Intn(3) == 0 { // port-53 clients mostly send back to back: the second datagram is
+						time.Sleep(time.Duration(lr.Intn(15)) * time.Millisecond) // being handled while the first answer arrives
+					}
 				}
 				if lr.Intn(2) == 0 {
 					time.Sleep(natT + time.Duration(250+lr.Intn(200))*time.Millisecond) // let it expire
@@ -170,16 +186,18 @@ func concMain(out, sum string, seed int64, nclients, rounds int) {
 	}
 	ei.ReturnMs = int(time.Since(t0) / time.Millisecond)
 	waitUntil(5*time.Second, func() bool {
-		return rec.count(func(e mEvent) bool { return e.M == "NatAdd" }) == rec.count(func(e mEvent) bool { return e.M == "NatRemove" })
+		return rec.added.Load() == rec.removed.Load()
 	})
 	ei.ReclaimMs = int(time.Since(t0) / time.Millisecond)
-	ei.Unreclaimed = rec.count(func(e mEvent) bool { return e.M == "NatAdd" }) - rec.count(func(e mEvent) bool { return e.M == "NatRemove" })
+	ei.Unreclaimed = int(rec.added.Load() - rec.removed.Load())
 	time.Sleep(50 * time.Millisecond)
 	for _, c := range clients {
 		c.Close()
 	}
 	tgt.Close()
+	tgt53.Close()
 	wg.Wait()
+	<-tdone
 	<-tdone
 	waitUntil(3*time.Second, func() bool {
 		n, s := repoGoroutines()
@@ -191,9 +209,6 @@ func concMain(out, sum string, seed int64, nclients, rounds int) {
 		ei.Sample = ""
 	}
 	ei.Layout = kr.layout
-	rec.mu.Lock()
-	ei.Flood = rec.flood
-	rec.mu.Unlock()
 
 	// ---- emit one trace: each observer's events in its own order, properties evaluated once at the end ----
 	tr.Emit(map[string]any{"ev": "Reset", "conc": true, "clients": nclients})
@@ -204,7 +219,7 @@ func concMain(out, sum string, seed int64, nclients, rounds int) {
 		l := e.line
 		didOf[l["payload"].(string)] = l["id"].(int)
 		sendT[l["id"].(int)] = e.t
-		tr.Emit(map[string]any{"ev": "CSend", "id": l["id"], "c": l["c"], "k": l["k"], "hdr": true, "dst": tokA, "sz": l["sz"], "wire": l["wire"], "la": 0, "t": ms(e.t)})
+		tr.Emit(map[string]any{"ev": "CSend", "id": l["id"], "c": l["c"], "k": l["k"], "hdr": true, "dst": l["dst"], "sz": l["sz"], "wire": l["wire"], "la": 0, "t": ms(e.t)})
 	}
 	// metrics in call order; associations of a client in NatAdd order
 	type addInfo struct {
@@ -216,9 +231,10 @@ func concMain(out, sum string, seed int64, nclients, rounds int) {
 	for i, c := range clients {
 		cliTok[c.LocalAddr().String()] = i + 1
 	}
-	rec.mu.Lock()
-	evs := append([]mEvent(nil), rec.ev...)
-	rec.mu.Unlock()
+	var evs []mEvent
+	if ei.Returned {
+		evs, _ = rec.events()
+	}
 	for _, e := range evs {
 		if e.M == "NatAdd" {
 			c := cliTok[e.Client]
@@ -261,7 +277,7 @@ func concMain(out, sum string, seed int64, nclients, rounds int) {
 		if did != 0 {
 			pt = did
 		}
-		tlines = append(tlines, map[string]any{"ev": "TRecv", "did": did, "a": a, "sock": portTok[pk], "dst": tokA, "sz": e.line["sz"], "p": pt, "ts": ms(sendT[did]), "t": ms(e.t) + 1})
+		tlines = append(tlines, map[string]any{"ev": "TRecv", "did": did, "a": a, "sock": portTok[pk], "dst": e.line["tok"], "sz": e.line["sz"], "p": pt, "ts": ms(sendT[did]), "t": ms(e.t) + 1})
 	}
 	// metrics in call order
 	for _, e := range evs {
@@ -276,14 +292,15 @@ func concMain(out, sum string, seed int64, nclients, rounds int) {
 		tr.Emit(l)
 	}
 	sidOf := map[string]int{}
+	sort.SliceStable(ssend, func(i, j int) bool { return ssend[i].line["id"].(int) < ssend[j].line["id"].(int) }) // sentS[id] = reply id
 	for _, e := range ssend {
 		l := e.line
 		sid := l["id"].(int)
 		sidOf[l["payload"].(string)] = sid
-		tr.Emit(map[string]any{"ev": "SSend", "id": sid, "src": tokA, "a": sidAssoc[sid], "sz": l["sz"], "nw": 1, "fits": true, "t": ms(e.t)})
+		tr.Emit(map[string]any{"ev": "SSend", "id": sid, "src": l["tok"], "a": sidAssoc[sid], "sz": l["sz"], "nw": 1, "fits": true, "t": ms(e.t)})
 	}
 	saltTok := map[string]int{}
-	want := string(socksAddr(taddr))
+	wants := map[int]string{tokA: string(socksAddr(taddr)), tokB: string(socksAddr(taddr53))}
 	for _, e := range crecv {
 		l := e.line
 		pt := l["pt"].(string)
@@ -294,9 +311,12 @@ func concMain(out, sum string, seed int64, nclients, rounds int) {
 				saltTok[s] = len(saltTok) + 1
 			}
 			line["salt"] = saltTok[s]
-			if strings.HasPrefix(pt, want) {
+			for tk, want := range wants {
+				if !strings.HasPrefix(pt, want) {
+					continue
+				}
 				body := pt[len(want):]
-				line["hdr"] = tokA
+				line["hdr"] = tk
 				line["sz"] = len(body)
 				if sid, ok := sidOf[body]; ok {
 					line["sid"], line["p"], line["a"] = sid, sid, sidAssoc[sid]
@@ -311,8 +331,8 @@ func concMain(out, sum string, seed int64, nclients, rounds int) {
 	tr.Emit(map[string]any{"ev": "Clock", "t": ms(time.Now()) + 1})
 	if sum != "" {
 		hx.WriteJSON(sum, map[string]any{"end": ei, "datagrams": len(csend), "forwarded": len(trecv), "relayed": len(crecv),
-			"associations": rec.count(func(e mEvent) bool { return e.M == "NatAdd" })})
+			"associations": int(rec.added.Load())})
 	}
 	fmt.Printf("conc: clients=%d datagrams=%d forwarded=%d relayed=%d associations=%d returned=%v\n", nclients, len(csend), len(trecv), len(crecv),
-		rec.count(func(e mEvent) bool { return e.M == "NatAdd" }), ei.Returned)
+		int(rec.added.Load()), ei.Returned)
 }
